@@ -203,13 +203,19 @@ func ruleC15K1(r *Run) {
 		return
 	}
 	name := fnName(ka)
+	// the ping: a call with an error result that gets to sendRequest — in the loop, or in the unexported helper one
+	// round of the loop was moved to (the rule is then applied to that helper's exits)
 	var ping *ssa.Call
-	allInstrs(ka, func(ins ssa.Instruction) {
-		if c, ok := ins.(*ssa.Call); ok {
-			if cf := c.Call.StaticCallee(); cf != nil && p.Analysed(cf) && p.reachesCall(cf, 1, "/wire.ClientConn.sendRequest") {
-				ping = c
+	loop := ka
+	p.withHelpers(loop, 1, func(g *ssa.Function) {
+		allInstrs(g, func(ins ssa.Instruction) {
+			if c, ok := ins.(*ssa.Call); ok && ping == nil {
+				if cf := c.Call.StaticCallee(); cf != nil && p.Analysed(cf) && len(errResultsOf(c)) > 0 && p.reachesCall(cf, 1, "/wire.ClientConn.sendRequest") {
+					ping = c
+					ka = g
+				}
 			}
-		}
+		})
 	})
 	if ping == nil {
 		r.Check(name+" pings", false, p.pos(ka.Pos()), name, "the keepalive loop does not send a ping request")
